@@ -125,7 +125,7 @@ def rule_a(ctx):
     sem = fold_workflow(f)
     if sem is not None and sem["undecided"] and not (sem["a"] or sem["c"]):
         sem = None  # data / metadata terms this rule cannot compare with the documented ones: left to the syntactic rules
-    if sem is not None and not recognised:
+    if sem is not None and (not recognised or not sem["undecided"]):
         # restructured workflow: decided by the symbolic fold over all input cases
         ctx.ob(R, f.qname, "workflow folded over input kind x overwrite x series x correct_array_series x scalar agrees with the documented one", not sem["a"], "; ".join(sem["a"][:3]), f.node, evidence=True)
         ctx.floor(R, 1)
